@@ -63,6 +63,8 @@ impl Fail {
     }
 }
 
+pub const NONTRIVIAL_CAP_PER_WORKER: usize = 1_500_000;
+
 /// Per-worker statistics, merged into the evidence at the end.
 #[derive(Default)]
 pub struct Local {
@@ -70,6 +72,8 @@ pub struct Local {
     pub nontrivial: HashSet<u64>,
     /// distinct-by-construction non-trivial cases (exhaustive enumerations)
     pub nontrivial_enum: u64,
+    /// non-trivial cases not hashed because the per-worker cap was reached
+    pub nontrivial_dropped: u64,
     pub classes: BTreeMap<String, u64>,
     pub samples: Vec<String>,
     pub excluded_known: u64,
@@ -102,6 +106,12 @@ impl Local {
     #[inline]
     pub fn nontrivial<H: Hash>(&mut self, h: &H) {
         if self.counting {
+            // bounded memory: beyond the cap further cases are not recorded (the reported count
+            // is then a lower bound, see `distinct_nontrivial_not_recorded`)
+            if self.nontrivial.len() >= NONTRIVIAL_CAP_PER_WORKER {
+                self.nontrivial_dropped += 1;
+                return;
+            }
             let mut s = std::collections::hash_map::DefaultHasher::new();
             h.hash(&mut s);
             self.nontrivial.insert(s.finish());
@@ -146,8 +156,14 @@ impl Local {
     }
     fn merge(&mut self, o: Local) {
         self.evals += o.evals;
-        self.nontrivial.extend(o.nontrivial);
         self.nontrivial_enum += o.nontrivial_enum;
+        self.nontrivial_dropped += o.nontrivial_dropped;
+        if self.nontrivial.len() > 40_000_000 {
+            // keep the merged set bounded as well (the count stays a lower bound)
+            self.nontrivial_dropped += o.nontrivial.len() as u64;
+        } else {
+            self.nontrivial.extend(o.nontrivial);
+        }
         for (k, v) in o.classes {
             *self.classes.entry(k).or_insert(0) += v;
         }
@@ -591,6 +607,7 @@ impl Ctx {
             "distinct_nontrivial": distinct,
             "distinct_nontrivial_hashed": t.nontrivial.len(),
             "distinct_nontrivial_enumerated": t.nontrivial_enum,
+            "distinct_nontrivial_not_recorded": t.nontrivial_dropped,
             "rule": *self.rule.lock().unwrap(),
             "samples": t.samples,
             "classes": t.classes,
